@@ -174,3 +174,45 @@ Section StepProofs.
     - intros x H. now apply fold_add_if_complete.
   Qed.
 End StepProofs.
+
+(* ---------- the upward axes: the parentNode chain of a well-formed document ---------- *)
+From AHP Require Import Proofs.DomProofs Proofs.IndexProofs.
+
+Section Upward.
+  Variables (doc : tag) (o : option nat).
+  Hypothesis Hwf : WF None o doc.
+  Hypothesis Hnd : NoDup (uids_of doc).
+
+  Lemma parent_elem_spec t p : Sub t doc -> parent_elem doc t = Some p -> Sub p doc /\ In t (kids p) /\ parent (hd_ t) = Some (tuid p).
+  Proof.
+    intros Hs H. unfold parent_elem in H. destruct (parent (hd_ t)) as [pu|] eqn:Ep; [|discriminate].
+    destruct (Sub_parent _ _ Hs _ _ Hwf) as [->|(y & Hy & Hty & Hp)].
+    { inversion Hwf; subst. simpl in Ep. congruence. }
+    rewrite Ep in Hp. inversion Hp; subst pu. rewrite (Sub_find _ _ Hy Hnd) in H. inversion H; subst y. repeat split; auto.
+  Qed.
+  (* the chain of ancestors and the subtree test of the indexed searches walk the same links *)
+  Lemma ancestors_in_line r : forall fuel t, Sub t doc ->
+    existsb (Nat.eqb r) (map tuid (ancestors doc fuel t)) = in_line fuel doc (tuid t) r.
+  Proof.
+    induction fuel as [|k IH]; intros t Hs; simpl; auto.
+    unfold parent_of. rewrite (Sub_find _ _ Hs Hnd). unfold parent_elem.
+    destruct (parent (hd_ t)) as [pu|] eqn:Ep; simpl; auto.
+    destruct (find pu doc) as [p|] eqn:Ef.
+    - assert (Hp : tuid p = pu) by (apply find_some_in in Ef; tauto). simpl. rewrite Hp.
+      rewrite (Nat.eqb_sym r pu). destruct (Nat.eqb pu r) eqn:E; simpl; auto.
+      rewrite IH by (eapply find_Sub; eauto). now rewrite Hp.
+    - (* a dangling parent link cannot occur in a well-formed document *)
+      exfalso. destruct (Sub_parent _ _ Hs _ _ Hwf) as [->|(y & Hy & _ & Hp)].
+      + inversion Hwf; subst. simpl in Ep. congruence.
+      + rewrite Ep in Hp. inversion Hp; subst pu. rewrite (Sub_find _ _ Hy Hnd) in Ef. discriminate.
+  Qed.
+  (* ancestor axis: exactly the elements that have the context element among their descendants *)
+  Theorem ancestors_spec t r a : Sub t doc -> find r doc = Some a ->
+    (In r (map tuid (ancestors doc (length (all_nodes doc)) t)) <-> In (tuid t) (map tuid (descendants a))).
+  Proof.
+    intros Hs Hr. rewrite <- (below_root_spec doc o Hwf Hnd r a Hr (tuid t)). unfold below_root.
+    rewrite <- (ancestors_in_line r _ t Hs). rewrite existsb_exists. split.
+    - intros H. exists r. split; auto. apply Nat.eqb_refl.
+    - intros (x & Hx & E). apply Nat.eqb_eq in E. now subst.
+  Qed.
+End Upward.
